@@ -8,6 +8,7 @@ From Ivv Require Import Core.Kernel Core.CoreTypes Core.CoreFd Core.CoreModel Co
   Core.CorePhase2TimeMon Core.CorePhase2TimeFr Core.CorePhase2TimeT1
   Core.CorePhase2TimeR3K Core.CorePhase2TimeR3 Core.CorePhase2TimeR3A Core.CorePhase2TimeR3L
   Core.CorePhase2FdBase Core.CorePhase2FdMon Core.CorePhase2FdStep.
+From Ivv Require Core.CorePhase2TimeT1W.
 Import ListNotations.
 Local Open Scope Z_scope.
 
@@ -108,5 +109,236 @@ Proof.
   - apply V; [apply (InvW_coresame s1); [constructor; reflexivity|apply (ms_nobad _ (iw_misc _ A))|exact A]|].
     apply (RK_same s1); [exact B|reflexivity..].
   - apply do_epoll_wait_R3; assumption.
+Qed.
+
+Lemma make_ready_kern : forall s k b, kern (make_ready s k b) = kern s.
+Proof. intros s k b. unfold make_ready. destruct (mem_z k (active s)); reflexivity. Qed.
+
+Lemma activate_kern : forall s k bits, kern (activate s k bits) = kern s.
+Proof.
+  intros s k bits. unfold activate.
+  repeat match goal with |- context [if ?c then _ else _] => destruct c end; rewrite ?make_ready_kern; reflexivity.
+Qed.
+
+Lemma activate_RK : forall s k bits, RK s -> RK (activate s k bits).
+Proof.
+  intros s k bits RKs. apply (RK_same s); [exact RKs|apply activate_kern| | |].
+  - destruct (lk_fields3 _ _ (proj1 (proj2 (activate_FF s k bits)))) as (_ & _ & A & _). exact A.
+  - destruct (lk_fields3 _ _ (proj1 (proj2 (activate_FF s k bits)))) as (_ & _ & _ & A & _). exact A.
+  - unfold activate. repeat match goal with |- context [if ?c then _ else _] => destruct c end;
+      unfold make_ready; repeat match goal with |- context [if ?c then _ else _] => destruct c end; reflexivity.
+Qed.
+
+Lemma epoll_process_RK : forall evs s re tm, RK s -> RK (fst (fst (epoll_process s evs re tm))).
+Proof.
+  induction evs as [|[[fd bits] data] evs IH]; intros s re tm RKs; cbn [epoll_process]; [exact RKs|].
+  destruct (data =? -1); [apply IH; exact RKs|]. destruct ((data =? -2) && (method s =? M_ET)); [apply IH; exact RKs|].
+  apply IH. apply activate_RK. exact RKs.
+Qed.
+
+Lemma poll_activate_RK : forall keys revs s, RK s -> RK (poll_activate s keys revs).
+Proof.
+  induction keys as [|k keys IH]; intros revs s RKs; cbn [poll_activate]; [exact RKs|].
+  destruct revs as [|r revs]; [exact RKs|]. apply IH. apply activate_RK. exact RKs.
+Qed.
+
+Lemma RK_read_tfd : forall s k1 x, InvW s -> RK s -> k_read (kern s) (tfd s) 8 = (k1, x) -> RK (set_kern s k1).
+Proof.
+  intros s k1 x I [R K] E. split.
+  - pose proof (CNTx_read (kern s) (tfd s) 8) as C. rewrite E in C. cbn [fst] in C.
+    apply (R3_F3 (fun y => y = tfd s) s _ R (F3_kern _ s k1 C)).
+    intros j J RG. destruct (raw_facts s j I RG) as (L & EX & _). split; [exact L|]. split; [|exact EX].
+    destruct (al_raw _ _ (InvW_AL s I) j RG) as (_ & N & _). exact N.
+  - pose proof (KX_read (kern s) (tfd s) 8 K) as KR. rewrite E in KR. exact KR.
+Qed.
+
+Lemma epoll_poll_PQ : forall s abs, InvW s -> Q3 s -> TfdM s -> is_epoll s = true -> RK s ->
+  PQ (fst (epoll_poll sc s abs)).
+Proof.
+  intros s abs I Q TM E RKs. unfold epoll_poll. cbv zeta.
+  destruct (flush_pending_ok (S (length (notify s))) s I E ltac:(lia)) as (s1 & F1 & I1 & N1 & W1 & R1 & A1 & NF1 & KC1 & RB1).
+  pose proof (CorePhase2TimeFr.flush_pending_FF (S (length (notify s))) s) as FP.
+  pose proof (flush_pending_st0 (S (length (notify s))) s) as ST.
+  rewrite F1 in *. unfold FFr in FP. cbn [res_state] in FP, ST.
+  assert (RK1 : RK s1).
+  { destruct RKs as [R K]. split; [apply (R3_F3n s s1 R (InvW_RawFacts s I)); apply FF_F3; exact FP|apply (s0_kx _ _ ST K)]. }
+  assert (C1 : Ch s s1) by (apply Ch_restsame; [assumption|assumption|apply (rs_epfd _ _ R1)]).
+  pose proof (TfdM_tm _ _ TM (proj1 (proj2 C1))) as T1.
+  match goal with |- context [epoll_wait_m sc s1 abs ?m] => pose proof (epoll_wait_m_ok sc WF dok s1 abs m I1 T1) as WP;
+    pose proof (epoll_wait_m_R3 s1 abs m I1 RK1) as WR3;
+    destruct (epoll_wait_m sc s1 abs m) as [s2 evs|s2|r] end; cbn [WPost WQ] in WP, WR3.
+  - destruct WP as (I2 & K2 & N2 & L2 & EV & RD). cbv zeta.
+    pose proof (StepT_invalidate s2 I2) as S3. set (s3 := invalidate_now s2) in *.
+    assert (RK3 : RK s3) by (apply (RK_same s2); [exact WR3|reflexivity..]).
+    pose proof (epoll_process_ok evs s3 false false (proj1 S3) EV) as (I4 & A4 & TMR).
+    pose proof (epoll_process_RK evs s3 false false RK3) as RK4.
+    destruct (epoll_process s3 evs false false) as [[s4 re] tmr]. cbn [fst snd] in *.
+    assert (P5 : ARes (fun s5 => InvW s5 /\ RK s5)
+              (if tmr then match k_read (kern s4) (tfd s4) 8 with
+                           | (k1, inl _) => R (set_kern s4 k1)
+                           | (k1, inr _) => halt (set_kern s4 k1) TFatal end else R s4)).
+    { destruct tmr; [|cbn [ARes]; split; assumption].
+      destruct (TMR eq_refl) as [X|X]; [discriminate|]. destruct (RD X) as (v & V1 & V2 & V3).
+      assert (KE : kern s4 = kern s2) by (rewrite (af_kern _ _ A4); reflexivity).
+      assert (TE : tfd s4 = tfd s2) by (rewrite (af_tfd _ _ A4); reflexivity).
+      pose proof (RK_read_tfd s4) as RR. pose proof (kstable_read (kern s4) (tfd s4) 8) as KS.
+      destruct (k_read (kern s4) (tfd s4) 8) as [k1 [n|e]]; cbn [ARes fst] in *; [|exact Logic.I].
+      split; [apply InvW_kstable; assumption|apply (RR k1 (inl n) I4 RK4 eq_refl)]. }
+    destruct (if tmr then match k_read (kern s4) (tfd s4) 8 with
+                           | (k1, inl _) => R (set_kern s4 k1)
+                           | (k1, inr _) => halt (set_kern s4 k1) TFatal end else R s4) as [s5|s5]; cbn [bind ARes] in *; [|exact Logic.I].
+    destruct P5 as [I5 RK5].
+    destruct re; [|cbn [PQ ARes]; exact RK5].
+    pose proof (run_pending_events_QI sc WF s5 I5 (proj1 RK5) (proj2 RK5)) as QQ.
+    destruct (run_pending_events sc s5); cbn [QI PQ ARes] in *; [|exact Logic.I]. destruct QQ as (_ & A & B). split; assumption.
+  - cbn [fst PQ ARes]. apply (RK_same s2); [exact WR3|reflexivity..].
+  - cbn [fst]. destruct r; cbn [PQ ARes]; [destruct WP|exact Logic.I].
+Qed.
+
+Lemma do_poll_wait_PQ : forall s call timeout, InvW s -> RK s -> PQ (fst (do_poll_wait sc s call timeout)).
+Proof.
+  intros s call timeout I RKs. unfold do_poll_wait.
+  pose proof (wait_enter_QI s I RKs) as Q.
+  destruct (wait_enter sc s) as [s1|s1]; [|exact Logic.I]. cbn [QI ARes] in Q. destruct Q as (I1 & R1 & K1). cbv zeta.
+  set (s2 := emit s1 (TWait _ _ _ _ _ _)).
+  assert (I2 : InvW s2) by (apply InvW_emit; [exact I1|discriminate..]).
+  assert (RK2 : RK s2) by (apply RK_emit; [split; assumption|exact Logic.I]).
+  destruct (mem_z _ _); cbn [fst PQ ARes].
+  - match goal with |- RK (invalidate_now ?X) => apply (RK_same X); [|reflexivity..] end.
+    apply RK_emit; [|exact Logic.I]. destruct (0 <? timeout); [|exact RK2].
+    apply RK_kern; [exact I2|exact RK2|reflexivity|reflexivity|apply KX_set_clock; apply RK2].
+  - change (kern s2) with (kern s1). change (pfds s2) with (pfds s1).
+    pose proof (poll_sleep_fields (kern s1) (pfds s1) timeout) as SF.
+    pose proof (poll_sleep_KX (kern s1) (pfds s1) timeout K1) as SK.
+    destruct (k_poll_sleep (kern s1) (pfds s1) timeout) as [k1 revs|]; cbn [fst PQ ARes]; [|exact Logic.I].
+    apply poll_activate_RK.
+    match goal with |- RK (invalidate_now ?X) => apply (RK_same X); [|reflexivity..] end.
+    apply RK_emit; [|exact Logic.I]. apply RK_kern; [exact I2|exact RK2|apply SF|apply SF|apply SK].
+Qed.
+
+Lemma poll_poll_PQ : forall s abs, InvW s -> is_epoll s = false -> RK s -> PQ (fst (poll_poll sc s abs)).
+Proof.
+  intros s abs I IE RKs. unfold poll_poll.
+  assert (TR : forall s0, InvW s0 -> RK s0 -> InvW (fst (to_relative s0 abs)) /\ RK (fst (to_relative s0 abs))).
+  { intros s0 I0 RK0. unfold to_relative. destruct abs; cbn [fst]; [|split; assumption].
+    split; [apply InvW_validate; exact I0|]. unfold validate_now. destruct (time_valid s0); [exact RK0|].
+    apply (RK_same s0); [exact RK0|reflexivity..]. }
+  assert (V : forall s0, InvW s0 -> RK s0 ->
+    PQ (fst (let '(s1, ms) := to_msec s0 abs in do_poll_wait sc s1 2 (if ms <? 0 then -1 else ms * 1000000)))).
+  { intros s0 I0 RK0. unfold to_msec. destruct (TR s0 I0 RK0) as [A B].
+    destruct (to_relative s0 abs) as [s1 [r|]]; cbn [fst] in A, B; apply do_poll_wait_PQ; assumption. }
+  destruct (method s =? M_PP) eqn:MP; [|apply V; assumption].
+  destruct (TR s I RKs) as [A B]. pose proof (CoreRelWait.method_to_relative s abs) as MR.
+  destruct (to_relative s abs) as [s1 rel]. cbn [fst] in A, B, MR.
+  destruct (no_ppoll (flt (kern s1))).
+  - apply V.
+    + apply InvW_set_method; [apply InvW_invalidate; exact A| |unfold M_PO; lia].
+      unfold is_epoll. cbn [method set_method invalidate_now set_time]. apply Z.eqb_eq in MP. rewrite MR, MP. reflexivity.
+    + apply (RK_same s1); [exact B|reflexivity..].
+  - apply do_poll_wait_PQ; assumption.
+Qed.
+
+Lemma m_poll_PQ : forall s abs, InvW s -> Q3 s -> TfdM s -> RK s -> PQ (fst (m_poll sc s abs)).
+Proof.
+  intros s abs I Q TM RKs. unfold m_poll. destruct (is_epoll s) eqn:IE; [apply epoll_poll_PQ|apply poll_poll_PQ]; assumption.
+Qed.
+
+(* ---------- the kernel-timer optimisation ---------- *)
+Lemma tfd_settime_F3 : forall s d, F3n s (tfd_settime s d).
+Proof.
+  intros s d. unfold tfd_settime. eapply F3_trans; [apply F3_kern; apply CNT_settime|].
+  constructor; [apply CNTx_refl|auto|auto|apply TrX_emit; exact Logic.I].
+Qed.
+
+Lemma set_poll_timeout_F3 : forall s a, F3r (fun _ => False) s (fst (set_poll_timeout s a)).
+Proof.
+  intros s a. unfold set_poll_timeout.
+  destruct (tfd s =? -1); [|cbn [fst F3r]; apply tfd_settime_F3].
+  pose proof (CNT_timerfd_create (kern s)) as KC.
+  destruct (k_timerfd_create (kern s)) as [k1 [fd|e]]; cbn [fst] in KC.
+  - set (s1 := set_epoll (set_kern s k1) (epfd s) fd (pwait2 s)).
+    assert (A1 : F3n s s1).
+    { eapply F3_trans; [apply F3_kern; exact KC|]. apply F3_plain; reflexivity. }
+    destruct (ctl_retry s1 CTL_ADD fd B_IN (-2)) as [s2 r] eqn:CT.
+    pose proof (ctl_retry_F3 _ _ _ _ _ _ _ CT) as A2.
+    destruct r; cbn [fst F3r]; [exact Logic.I|].
+    eapply F3_trans; [exact A1|]. eapply F3_trans; [exact A2|]. apply tfd_settime_F3.
+  - cbn [fst F3r]. eapply F3_trans; [apply F3_kern; exact KC|]. apply F3_plain; reflexivity.
+Qed.
+
+Lemma timeout_check_F3 : forall s abs, F3r (fun _ => False) s (fst (timeout_check s abs)).
+Proof.
+  intros s abs. unfold timeout_check.
+  destruct ((last_abs_count s =? 5) && (0 <=? abs_cmp abs (last_abs s))); [apply F3_refl|].
+  set (s1 := if last_abs_count s =? 5 then tfd_settime s 0 else s).
+  assert (A1 : F3n s s1) by (unfold s1; destruct (last_abs_count s =? 5); [apply tfd_settime_F3|apply F3_refl]).
+  destruct (abs_cmp abs (last_abs s) =? 0).
+  - set (s2 := if last_abs_count s1 <? 5 then set_last_abs s1 (last_abs s1) (last_abs_count s1 + 1) else s1).
+    assert (A2 : F3n s1 s2) by (unfold s2; destruct (last_abs_count s1 <? 5); [apply F3_plain; reflexivity|apply F3_refl]).
+    destruct (last_abs_count s2 =? 5); [|cbn [fst F3r]; eapply F3_trans; eassumption].
+    destruct abs as [a|]; [|cbn [fst F3r]; eapply F3_trans; eassumption].
+    pose proof (set_poll_timeout_F3 s2 a) as A3.
+    destruct (fst (set_poll_timeout s2 a)); cbn [F3r] in *; [|exact Logic.I].
+    eapply F3_trans; [exact A1|]. eapply F3_trans; [exact A2|exact A3].
+  - destruct abs as [a|]; cbn [fst F3r]; (eapply F3_trans; [exact A1|apply F3_plain; reflexivity]).
+Qed.
+
+Lemma timeout_check_RK : forall s abs, InvW s -> RK s -> PQ (fst (timeout_check s abs)).
+Proof.
+  intros s abs I [R K]. pose proof (timeout_check_F3 s abs) as F. pose proof (timeout_check_st0 s abs) as ST.
+  destruct (fst (timeout_check s abs)) as [s0|s0]; cbn [PQ ARes F3r res_state] in *; [|exact Logic.I].
+  split; [apply (R3_F3n s s0 R (InvW_RawFacts s I) F)|apply (s0_kx _ _ ST K)].
+Qed.
+
+Lemma poll_and_run_PQ : forall s abs, LoopInv s -> RK s -> PQ (fst (poll_and_run sc s abs)).
+Proof.
+  intros s abs (I & Q & TM & AC) RKs. unfold poll_and_run.
+  assert (DISP : forall r, okr (PollPost sc s) r -> PQ r ->
+            PQ (bind r (fun s0 => dispatch_active sc (S (length (active s0))) s0))).
+  { intros r OK P. destruct r as [s1|s1]; cbn [bind okr PQ ARes] in *; [|exact Logic.I].
+    destruct OK as (I1 & _). destruct P as [R1 K1].
+    pose proof (dispatch_active_QI sc WF (S (length (active s1))) s1 I1 R1 K1) as QQ.
+    destruct (dispatch_active sc (S (length (active s1))) s1); cbn [QI ARes] in *; [|exact Logic.I]. destruct QQ as (_ & A & B). split; assumption. }
+  assert (G : okr (PollPost sc s) (fst (if method s =? M_ET
+      then match timeout_check s abs with
+           | (Halt s0, _) => (Halt s0, true)
+           | (R s0, true) => let '(r, rt) := m_poll sc s0 None in
+                             (bind r (fun s1 => R (if rt then set_last_abs s1 (last_abs s1) 0 else s1)), rt)
+           | (R s0, false) => m_poll sc s0 abs
+           end
+      else m_poll sc s abs)) /\ PQ (fst (if method s =? M_ET
+      then match timeout_check s abs with
+           | (Halt s0, _) => (Halt s0, true)
+           | (R s0, true) => let '(r, rt) := m_poll sc s0 None in
+                             (bind r (fun s1 => R (if rt then set_last_abs s1 (last_abs s1) 0 else s1)), rt)
+           | (R s0, false) => m_poll sc s0 abs
+           end
+      else m_poll sc s abs))).
+  { destruct (Z.eqb_spec (method s) M_ET) as [ME|NE]; [|split; [apply (m_poll_ok sc WF dok)|apply m_poll_PQ]; assumption].
+    pose proof (timeout_check_ok sc WF dok s abs I ME) as TC. pose proof (timeout_check_RK s abs I RKs) as TR.
+    destruct (timeout_check s abs) as [[s0|s0] fl]; cbn [fst okr PQ ARes] in TC, TR.
+    2:{ cbn [fst]. split; [apply halts_okr; exact TC|exact Logic.I]. }
+    destruct TC as (I0 & F0 & TM0 & IE0). pose proof (TcFr_Q3 _ _ F0 Q) as Q0.
+    assert (NW0 : nwait (kern s0) = nwait (kern s)) by apply (tc_nwait _ _ F0).
+    destruct fl.
+    - pose proof (m_poll_ok sc WF dok s0 None I0 Q0 TM0) as MO. pose proof (m_poll_PQ s0 None I0 Q0 TM0 TR) as MP.
+      destruct (m_poll sc s0 None) as [r rt]. cbn [fst] in *.
+      destruct r as [s1|s1]; cbn [bind okr PQ ARes] in *.
+      + split.
+        * destruct MO as (A1 & A2 & A3 & A4 & A5).
+          destruct rt; [|split; [exact A1|split; [exact A2|split; [exact A3|lia]]]].
+          split; [apply (InvW_coresame s1); [constructor; reflexivity|apply (ms_nobad _ (iw_misc _ A1))|exact A1]|].
+          split; [exact A2|split; [exact A3|cbn [kern set_last_abs]; lia]].
+        * destruct rt; [apply (RK_same s1); [exact MP|reflexivity..]|exact MP].
+      + split; [exact MO|exact Logic.I].
+    - split; [apply (PollPost_pre sc s s0); [exact NW0|apply (m_poll_ok sc WF dok); assumption]|apply m_poll_PQ; assumption]. }
+  destruct (if method s =? M_ET
+      then match timeout_check s abs with
+           | (Halt s0, _) => (Halt s0, true)
+           | (R s0, true) => let '(r, rt) := m_poll sc s0 None in
+                             (bind r (fun s1 => R (if rt then set_last_abs s1 (last_abs s1) 0 else s1)), rt)
+           | (R s0, false) => m_poll sc s0 abs
+           end
+      else m_poll sc s abs) as [r rt]. cbn [fst] in *. apply DISP; apply G.
 Qed.
 End Wait.
